@@ -201,15 +201,36 @@ type request struct {
 	seenID   string
 	escaped  any
 	bodyText string
+	// fwd: the handler of this request forwards another request (fwd) through the same Mux, handing it its own
+	// Store.W, and writes nothing itself: the client receives whatever the forwarded handler wrote, and that is the
+	// status both REQ_END records must carry. viaForward marks the forwarded request (it is not served directly).
+	fwd        *request
+	viaForward bool
+}
+
+func (rq *request) wantCode() int {
+	if rq.fwd != nil {
+		return rq.fwd.b.wantCode(true)
+	}
+	return rq.b.wantCode(rq.matched)
 }
 
 type ctxKey struct{}
+
+// theMux is the Mux the handlers forward through (set by the batch that is running; batches run one at a time).
+var theMux *httpd.Mux
 
 func handlerFor() httpd.HandlerFunc {
 	return func(s *httpd.Store) {
 		rq := s.R.Context().Value(ctxKey{}).(*request)
 		rq.seenID = strings.Clone(s.GetID())
 		b := rq.b
+		if rq.fwd != nil {
+			u, _ := url.ParseRequestURI(rq.fwd.uri)
+			req2 := &http.Request{Method: rq.fwd.method, URL: u, RequestURI: rq.fwd.uri, RemoteAddr: rq.fwd.remote, Header: http.Header{}, Proto: "HTTP/1.1", ProtoMajor: 1, ProtoMinor: 1, Body: http.NoBody}
+			theMux.ServeHTTP(s.W, req2.WithContext(context.WithValue(context.Background(), ctxKey{}, rq.fwd)))
+			return
+		}
 		if b.ctxDone == 2 {
 			ctx, cancel := context.WithDeadline(s.R.Context(), time.Now().Add(-time.Second))
 			defer cancel()
@@ -406,6 +427,13 @@ func genBatch(t *rapid.T) *batch {
 		}
 		rq.b = bh
 		b.reqs = append(b.reqs, rq)
+		if rq.matched && bh.panicKind == pNone && bh.status == 0 && !bh.body && bh.ctxDone == 0 && rapid.IntRange(0, 3).Draw(t, "forwards") == 0 {
+			// this handler writes nothing itself: it forwards another request through the Mux with its own Store.W
+			inner := &request{method: "GET", uri: fmt.Sprintf("/h/f%d", i), remote: rq.remote, wantIP: rq.wantIP, matched: true, viaForward: true,
+				b: behaviour{status: rapid.SampledFrom([]int{0, 201, 404, 418, 503}).Draw(t, "forwardedStatus"), body: rapid.Bool().Draw(t, "forwardedBody")}}
+			rq.fwd = inner
+			b.reqs = append(b.reqs, inner)
+		}
 	}
 	return b
 }
@@ -414,6 +442,7 @@ func runBatch(b *batch, realServer bool) string {
 	sink := &lm.Sink{}
 	lg := logger.New(lm.NewHandler(b.kind, sink, logger.NewOptions(b.threshold, false, false)))
 	mux := httpd.NewMux()
+	theMux = mux
 	mux.HandleRelay(lg.Relay)
 	mux.Handle("/h/:id", httpd.MethodAll, handlerFor())
 	mux.Handle("/h/:id/*", httpd.MethodAll, handlerFor())
@@ -440,7 +469,9 @@ func runBatch(b *batch, realServer bool) string {
 	}
 	if b.parallel <= 1 {
 		for _, rq := range b.reqs {
-			serve(rq)
+			if !rq.viaForward {
+				serve(rq)
+			}
 		}
 	} else {
 		var wg sync.WaitGroup
@@ -455,7 +486,9 @@ func runBatch(b *batch, realServer bool) string {
 			}()
 		}
 		for _, rq := range b.reqs {
-			ch <- rq
+			if !rq.viaForward {
+				ch <- rq
+			}
 		}
 		close(ch)
 		wg.Wait()
@@ -468,7 +501,11 @@ func runBatch(b *batch, realServer bool) string {
 		if rq.escaped != nil {
 			return fmt.Sprintf("request %s %s {%s}: panic escaped ServeHTTP: %v", rq.method, rq.uri, rq.b, rq.escaped)
 		}
-		if want := rq.b.wantCode(rq.matched); rq.code != want {
+		if rq.viaForward {
+			rq.code = rq.b.wantCode(true) // it has no response of its own: what it wrote went to the outer request's client
+			continue
+		}
+		if want := rq.wantCode(); rq.code != want {
 			return fmt.Sprintf("request %s %s {%s}: response status %d, want %d", rq.method, rq.uri, rq.b, rq.code, want)
 		}
 	}
